@@ -1,9 +1,10 @@
 #!/bin/bash
 # usage: tools/mutant.sh <patch.diff> <prop> [<prop>...] : apply patch to /repo, run quick checks, revert
-patch=$1; shift
-cd /repo && git apply "$patch" || { echo "patch does not apply"; exit 3; }
+patch=$(realpath "$1"); shift
+cd /repo && { git apply "$patch" 2>/dev/null || git apply -3 "$patch" 2>/dev/null; } || { echo "patch does not apply"; git reset -q --hard HEAD; exit 3; }
+git diff HEAD --stat | tail -1
 for p in "$@"; do
-  /verif/bin/vcheck $p --tier quick --no-evidence 2>&1 | grep -E "VIOLATION|KNOWN|INCONCLUSIVE|^  " | head -${LINES_MAX:-12}
+  /verif/bin/vcheck $p --tier quick --no-evidence --no-replay 2>&1 | grep -E "VIOLATION|KNOWN|INCONCLUSIVE|^  " | cut -c1-400 | head -${LINES_MAX:-12}
   echo "[$p exit=${PIPESTATUS[0]}]"
 done
-cd /repo && git checkout -- . && git status --short | head
+cd /repo && git reset -q --hard HEAD && git status --short | head
